@@ -176,7 +176,7 @@ Proof.
       inv_some; rewrite (proj1 (set_probing_frame _ _ _)); apply keeps_refl.
   - (* restore *)
     destruct (nget (drains st) (goid (e_by e))) as [d|]; [|inv_some; apply keeps_refl].
-    destruct (d_cancel d); [|discriminate]. destruct (_ && _); [|discriminate].
+    destruct (d_cancel d); [|discriminate]. destruct (tstate_eqb _ _) eqn:Hnd; [discriminate|]. destruct (_ && _); [|discriminate].
     destruct (notify st d (e_t e)) as [cs|] eqn:Hn; [|discriminate]. inv_some.
     exact (keeps_notify _ _ _ _ Hn).
   - (* KDrainBegin *)
